@@ -13,6 +13,11 @@ CLAIMED = {
    note="Trusted: refpred.rs / spec.rs, the 'message present in the stream' oracle (resynchronisation after an error is the server's choice), overflow-checks + debug-assertions in the harness build. A set REPLY bit on a request and out-of-bounds reads that do not alter arguments are not judged here (the latter: ASan fuzz target). Descriptors passed by the generator back the ranges the messages declare (a mapping past the end of a file faults in any mmap-based back end).",
    technique="grammar-aware mutational property testing (proptest) with independent validity oracle; crash isolation by supervising process",
    ref="DESIGN.md section 3, C05"),
+ "C08": dict(level="fault_enumeration",
+   text="Enumeration of segmentations and truncations for one spec-encoded instance of every request the back-end server implements (incl. a 4096-byte SET_CONFIG and a 32-region SET_MEM_TABLE with 32 descriptors), every back-end-initiated request and every reply/ack kind read by Frontend, Backend proxy and GpuBackend: all 2-splits, all 3-splits of messages up to 64 bytes (selected points for longer ones), byte-by-byte delivery, and every cut offset followed by a half-close (about 25k deliveries in quick). Each next segment is written only after the receiver drained the previous one, so splits are really experienced. Segmented delivery must equal unsplit delivery (result and handler log) and be accepted; a cut must give an error (Disconnected exactly at offset 0), no dispatch, no hang. Sender side: bursts of maximum-size messages from Frontend and BackendReqHandler on non-blocking sockets with minimal SO_SNDBUF against a reader that provokes partial writes (observed in every burst) and checks byte-exact concatenation and descriptor placement.",
+   note="Trusted: spec.rs encodings, FIONREAD==0 as 'segment consumed', the inference of a partial write from a stalled sender with an off-boundary byte count. With this kernel's minimum send buffer a descriptor-carrying message (<= 1044 bytes) is never split by a partial write, so descriptor placement under partial writes is only exercised for whole messages. A receiver still blocked after 10 s counts as blocking forever.",
+   technique="exhaustive fault enumeration (all split points / cut offsets) with differential oracle against unsplit delivery; provoked partial writes",
+   ref="DESIGN.md section 3, C08"),
  "C10": dict(level="exploration",
    text="Controlled concurrency runs with harness-owned hold points between 'request written' and 'reply read' in the Frontend, the Backend proxy and the GpuBackend: every op mix of two callers (and sampled / all mixes of three) over {two reply-bearing codes, acknowledged, fire-and-forget} x every release order; the first caller is parked with its request outstanding, the others are started and must settle (blocked on the endpoint lock), the raw peer sees the wire and answers every request with that request's identity. Checked: no request reaches the wire while another caller sits between write and read, every caller gets its own answer and no error, all complete. Plus uncontrolled stress (8 threads x 200 mixed calls per endpoint; 16 x 20000 thorough) with an identity-echoing responder, which covers windows the hold point does not expose.",
    note="Trusted: hold-point controller and thread-state sampling (a caller asleep without being parked is 'blocked on the lock'). Atomicity is explored at hold-point granularity (one window per call); interleavings inside sendmsg/recvmsg are the kernel's. The stress part is probabilistic.",
